@@ -326,7 +326,8 @@ def c03_gen(tier, rng):
         return G.script(kind, ops)
     for op in G.BINOPS:
         # `^` (routed to std), `/` and `%` (zero and infinite operands): the numeric rows completely, also in the quick tier
-        for a, b in (sorted(set(pairs) | set(numeric)) if tier == "quick" and op in ("^", "/", "%") else pairs):
+        ints_only = [(a, b) for a, b in numeric if a[0] == "I" and b[0] == "I"] if tier == "quick" else []
+        for a, b in (sorted(set(pairs) | set(numeric)) if tier == "quick" and op in ("^", "/", "%") else sorted(set(pairs) | set(ints_only)) if tier == "quick" and op in ("+", "-", "*") else pairs):
             cases.append((G.op_case_vars(op, a, b), {"kind": "op-vars", "op": op, "a": a, "b": b}))
             if rng.random() < 0.06 or (a[0] == "F" and b[0] == "F" and a in SP and b in SP):
                 cases.append((rebound(G.op_case_vars(op, a, b), a, b, rng), {"kind": "op-vars", "op": op, "a": a, "b": b}))
@@ -914,7 +915,7 @@ def recognise(tokens):
 # every identifier the generators use is bound (as a variable AND as an identity function), so that an accepted
 # ill-formed input is not hidden behind an unknown name
 C13_SETUP = (["init %s I3" % hexs("a"), "setfn %s id" % hexs("a"), "init %s I4" % hexs("b"), "setfn %s id" % hexs("f")]
-             + ["init %s I%d" % (hexs(nm), 5 + k) for k, nm in enumerate(["c", "x", "y", "foo", "_z", "a1"])]
+             + ["init %s I%d" % (hexs(nm), 5 + k) for k, nm in enumerate(["c", "x", "y", "foo", "_z", "a1"])] + ["init %s B1" % hexs("bt")]
              + ["setfn %s id" % hexs(nm) for nm in ["g", "h", "b", "c", "x", "y", "foo", "_z", "a1"]])
 
 
@@ -976,7 +977,7 @@ def c13_gen(tier, rng):
     for alpha, lens in ((["false", "true", "&&", "||", "!", "(", ")"], (4, 5)), (["0", "1", "*", "^", "(", ")", "!", "-"], (5,)),
                         (["f", "typeof", "!", "-", "true", "1", "(", ")"], (3, 4, 5)),
                         (['"s"', "1", "a", "<", "=", "(", ")", "f"], (2, 3, 4, 5)), (['"("', '")"', '"(("', "(", ")", "+", "f", "1"], (1, 2, 3, 4)),
-                        (["+", "-", "!", "1", "2.5", "true", '"s"', "a", "0x1f", "1e3"], (1, 2, 3)), (['"s"', '"t"', "+", "%", "/", "!=", ",", "x"], (2, 3, 4))):
+                        (["+", "-", "!", "1", "2.5", "true", '"s"', "a", "0x1f", "1e3"], (1, 2, 3)), (["&&=", "||=", '"bt"', "true", "bt", "(", ")", "="], (1, 2, 3, 4)), (['"s"', '"t"', "+", "%", "/", "!=", ",", "x"], (2, 3, 4))):
         for n in lens:
             for seq in itertools.product(alpha, repeat=n):
                 cases.append(c13_case(list(seq)))
@@ -2181,13 +2182,14 @@ def c09_cases(names_builtin, names_other, rng, full):
                                      ("%s x" % n, "I3") if kind in ("H", "N") else ("%s (())" % n, "E")]
                             forms += [("%s %s 3" % (n, n), "I3"), ("%s((3))" % n, "I3"), ("%s /* c */ (3)" % n, "I3"), ("%s\n3" % n, "I3"),
                                       ("%s(true, 3, 4)" % n, "T(B1,I3,I4)"), ("%s((false, 3, 4))" % n, "T(B0,I3,I4)"), ('%s("a", "b", "c", "d")' % n, "T(S61,S62,S63,S64)")]
+                            forms += [("%s !true" % n, None, "ERR AppendedToLeafNode"), ("%s - 1 !" % n, None, "ERR AppendedToLeafNode")]
                             if kind in ("H", "N"):
                                 forms.append(("%s t1" % n, "T(I7)"))     # a one-element tuple is passed as it is
                                 forms.append(("%s(t1)" % n, "T(I7)"))
                             if kind in ("H", "N") and post not in ("clrf", "clone+clrf", "clone+clr"):
                                 forms.append(("wrap %s 3" % n, "I3"))
                             ops = list(setup)
-                            for src, arg in forms:      # resolution is the same through the shared and the mutable entry points
+                            for src, *_ in forms:      # resolution is the same through the shared and the mutable entry points
                                 ops.append(rng.choice(["ev srv ", "ev srv ", "evc smv ", "evc nmv "] if kind in ("H", "N") else ["ev srv "]) + hexs(src))
                             ops.append("ev srv " + hexs(n))  # the bare name is a variable
                             if kind in ("E", "EB"):
@@ -2244,7 +2246,7 @@ def c09_post(cases, impl, model):
         m = c[1]
         if m.get("kind") == "resolution" and m["ctx"] == "EB":
             steps = step_outputs(impl.get(str(i), ""))
-            for (src, arg), got in zip(m["forms"], steps[m["nsetup"]:]):
+            for (src, *_), got in zip(m["forms"], steps[m["nsetup"]:]):
                 builtin_answer[src] = got
     for i, c in enumerate(cases):
         m = c[1]
@@ -2259,7 +2261,12 @@ def c09_post(cases, impl, model):
             fails.append((i, "binding %s on a clone changed the original context: %s" % (n, out[-300:])))
             continue
         log = out[out.index("LOG[") + 4:out.rindex("]")] if "LOG[" in out else ""
-        for (src, arg), got in zip(m["forms"], steps):
+        for (src, arg, *fixed), got in zip(m["forms"], steps):
+            if fixed:
+                if got != fixed[0]:
+                    fails.append((i, "%r is no call form (the identifier is not followed by an operand): got %s, expected %s in context %s" % (src, got, fixed[0], m["ctx"])))
+                    break
+                continue
             nested = src.startswith("wrap ")
             if m["user"] == "fail":
                 want = "ERR CustomMessage(%s)" % hexs("boom")
@@ -2370,7 +2377,7 @@ def c14_gen(tier, rng):
         if rng.random() < 0.25:     # variables named like builtins and like the functions of the program: the class comes from the syntax only
             e = rename_ast(e, lambda c, nm: rng.choice([{"a": "len", "b": "max", "c": "f", "x": "typeof", "foo": "if", "y": "True", "_z": "FALSE", "a1": "tRue"},
                                                          {"a": "price", "b": "e", "c": "xE", "x": "rate", "y": "a2e", "foo": "E", "_z": "one", "a1": "x1e"}]).get(nm, nm) if c in "RW" else nm)
-        src = G.render(G.flatten(e), rng, rng.choice(["space", "tight"]))
+        src = G.render(G.flatten(e), rng, rng.choice(["space", "tight", "random"]))
         occ = occurrences(e)
         j = lambda cls: ",".join(hexs(nm) for c, nm in occ if c in cls)
         prefix = {"R": "ivr", "W": "ivw", "F": "if"}
@@ -2806,6 +2813,10 @@ def c07_gen(tier, rng):
             ref = "p " + a + " " + b + " q"
             cases.append(("TREE\t" + hexs(src), {"kind": "ws-char", "src": src, "ws": 0x20, "ref": ref}))
             cases.append(("TREE\t" + hexs(ref), {"kind": "ws-ref", "src": ref}))
+    for src, ref in (('1e-"3"', '1e - "3"'), ('2.5e+"7"', '2.5e + "7"'), ('a 1E-"0"', 'a 1E - "0"'), ('1e-(3)', '1e - (3)'), ('1e+true', '1e + true'), ('xe-3', 'xe - 3'),
+                     ('price-tax', 'price - tax'), ('1e-3e', '1e - 3e'), ('(1e)-3', '( 1e ) - 3')):
+        cases.append(("TREE\t" + hexs(src), {"kind": "ws-char", "src": src, "ws": 0x20, "ref": ref}))
+        cases.append(("TREE\t" + hexs(ref), {"kind": "ws-ref", "src": ref}))
     # characters that are NOT whitespace must not separate
     for w in (0x200B, 0x2060, 0xFEFF, 0x180E, 0x1F, 0x7F, 0x200C):
         src = "a" + chr(w) + "b"
